@@ -234,6 +234,7 @@ class Net(object):
     self.fired = {}
     self.seq = 0
     self.send_log = []        # (seq, time, conn id, bytes)
+    self.send_cont = []       # (seq, time, conn id, seq of the send call it completes): second half of a blocked write
     self.oplog = []           # (conn id, op index, kind) for pilot runs
     self.record_ops = cfg.get('record_ops', False)
     self.current_opener = None
@@ -501,6 +502,9 @@ class FakeGSocket(object):
       self._check_open()
       if conn.dead:
         raise _err(errno.EPIPE)
+      # the rest of this write reaches the wire only now
+      seq2 = net.note('conn' + conn.id, 'send-rest %d' % (len(data) - n))
+      net.send_cont.append((seq2, CLOCK.now, conn.id, seq))
       conn.client_sent(data[n:])
       return len(data)
     if kind == 'silence':
